@@ -3,8 +3,9 @@ from common import *
 
 RULE = ('no cases of its own: the model functions of the theorems (Model/Join.v, Model/JoinTri.v) are compared with the implementation by the C07 '
         'join suites, which include stroke widths 0 and 1 with all three alignments (join_tri_pixels / join_tri_rects / join_tri_bbox, joinh_join)')
-PARTIAL = ['C19_join_flat_inside_w1_is_line: a triangle without area, width 1, Inside = the single Bresenham line between its extreme vertices; C19_join_tri_outline_w1_proper: every triangle with non-zero area, every alignment (Triangle::is_collapsed with width 1 <-> no area: C19_join_is_collapsed_w1); C19_join_tri_outline_w1_any: pixels() of a width-1 stroke = the three clockwise Bresenham lines for Center and Outside alignment unconditionally and for Inside '
-           'alignment whenever Triangle::is_collapsed is false (Line::extents with thickness 1 is the line itself for every StrokeOffset: C19_join_extents_w1_any); '
-           'a COLLAPSED Inside stroke (any width; with width 1 only degenerate triangles collapse) paints the rows of Triangle::scanline_intersection of the whole triangle in the stroke colour: C19_join_collapsed_inside_pixels - not the three clockwise edge lines read literally, so clause 6 is stated as these two cases; '
-           'C19_join_tri_outline_w1_partial (per-edge statement) is kept as the stepping stone']
+PARTIAL = ['none for clause 6 any more: the 1 px outline is characterised for EVERY triangle (vertices within +-2^29) and every alignment - '
+           'C19_join_tri_outline_w1_proper (non-zero area, all alignments: pixels() = the three clockwise Bresenham lines; Triangle::is_collapsed with width 1 <-> no area, '
+           'C19_join_is_collapsed_w1), C19_join_tri_outline_w1_any (no area, Center / Outside: the same three lines), C19_join_flat_inside_w1_is_line (no area, Inside: '
+           'the single Bresenham line between the extreme vertices, from C19_join_collapsed_inside_pixels which holds for every width >= 1); the literal reading "three edge lines" '
+           'of clause 6 is therefore stated as these cases. C19_join_tri_outline_w1_partial (per-edge statement) is kept as the stepping stone']
 ASSUMPTIONS = ['vertex coordinates within i32 (the saturating cast of the join intersection is the identity on them)']
